@@ -81,6 +81,12 @@ FIXED = [
      "docstring said r - D, code computes (r - D) / r", None),
     ('F35', 'C19', 'fix: default scale of the similarity transforms was 0 for all-zero input',
      'distance_to_similarity(zeros) and squash(X, x0=0) returned NaN / raised ZeroDivisionError under the default scale', None),
+    ('F36', 'C14', 'fix: subsequence search reported candidates pruned by the lower bound with distance 0',
+     'subsequence_search(q,S,max_dist=m,use_lb=True).kbest_matches(k=None): pruned candidates listed with distance 0.0, ranked first', None),
+    ('F37', 'C14', 'fix: kbest_matches(k) returned the cached larger result when a smaller k was asked later',
+     'kbest_matches(3) followed by kbest_matches(1) on one object returned 3 matches', None),
+    ('F38', 'C14', 'fix: subsequence search applied LB_Keogh although psi-relaxation was requested',
+     'query [0,1,2.5], candidate [1,1,2.5,2.5], psi=1 (distance 0) pruned by LB_Keogh: missing from the k best', None),
 ]
 
 OPEN = [
